@@ -558,6 +558,9 @@ func GenOp(r *rand.Rand, p *Profile, nAcct int) Op {
 		op.V[0] = Amt{Mode: 1, M: uint64(1 + r.Intn(50))}
 	case "addorder":
 		op.V[1] = Amt{Mode: 1, M: uint64(700 + r.Intn(800))}
+		if r.Intn(5) < 2 {
+			op.V[1] = Amt{Mode: 6, M: uint64(900 + r.Intn(500))}
+		}
 	case "remliq":
 		op.V[1], op.V[2] = Amt{Mode: 2}, Amt{Mode: 2}
 	case "createcoin", "recreatecoin":
@@ -666,7 +669,17 @@ func GenBlocks(r *rand.Rand, p *Profile, nBlocks, nAcct, nVal int, period uint64
 			n += r.Intn(p.TxMax - p.TxMin + 1)
 		}
 		for i := 0; i < n; i++ {
-			bo.Ops = append(bo.Ops, GenOp(r, p, nAcct))
+			op := GenOp(r, p, nAcct)
+			bo.Ops = append(bo.Ops, op)
+			if op.K == "addorder" && len(op.V) > 1 && op.V[1].Mode == 6 && r.Intn(2) == 0 {
+				// a second maker at exactly the same price on the same side: consecutive ids
+				tw := op
+				tw.X = append([]int64(nil), op.X...)
+				tw.V = append([]Amt(nil), op.V...)
+				tw.A = r.Intn(nAcct)
+				tw.NM, tw.SM, tw.MS, tw.ZGP = 0, 0, nil, false
+				bo.Ops = append(bo.Ops, tw)
+			}
 		}
 		if r.Float64() < p.PRestart {
 			bo.Restart = true
